@@ -23,6 +23,8 @@ type AttackCall struct {
 	ID    string `json:"id,omitempty"`
 	Owner string `json:"owner,omitempty"` // for *-owner variants
 	Val   string `json:"val,omitempty"`
+	// update-inputs: the new input declaration (plain controllers); valid or not
+	Inputs []InputSpec `json:"inputs,omitempty"`
 }
 
 // PreRes is a pre-existing resource.
@@ -38,6 +40,8 @@ type PreRes struct {
 type Attacker struct {
 	Spec  ProbeSpec    `json:"spec"`
 	Calls []AttackCall `json:"calls"`
+	// Workers > 1: the calls are issued by this many concurrent tasks sharing the controller's runtime handle
+	Workers int `json:"workers,omitempty"`
 }
 
 // C08Case is a C08 run.
@@ -148,6 +152,31 @@ func (c08) Gen(seed uint64, tier string) Case {
 			call := AttackCall{Op: attackOps[r.Intn(len(attackOps))], Type: types[r.Intn(3)], ID: []string{"r0", "r1", "new"}[r.Pick([]int{3, 3, 1})], Val: fmt.Sprintf("a%d_%d", i, k)}
 			call.Owner = ownersPool[r.Intn(len(ownersPool))]
 			a.Calls = append(a.Calls, call)
+		}
+		if r.Bool(0.4) {
+			a.Workers = 2 + r.Intn(2)
+			if len(uo) > 0 && r.Bool(0.6) {
+				// write-heavy burst on the declared outputs: concurrent callers meet inside the same helpers
+				focus := []string{"modify", "modify-noowner", "modify", "modify-noowner", "create", "create-noowner", "update", "destroy", "teardown", "destroy-owner"}
+				for k := range a.Calls {
+					a.Calls[k].Op = focus[r.Intn(len(focus))]
+					a.Calls[k].Type = uo[r.Intn(len(uo))].Type
+					a.Calls[k].ID = []string{"r0", "r1", "new", "new"}[r.Intn(4)]
+				}
+			}
+		} else if !q {
+			// sequential plain attacker: re-declare the inputs on the way, validly or not (a rejected declaration must
+			// not change what the controller may access)
+			for k := 0; k < 1+r.Intn(2); k++ {
+				nins, _ := genDecl(r, false, r.Bool(0.6))
+				if r.Bool(0.5) {
+					// everything it could wish for, plus one entry that makes the declaration invalid
+					nins = []InputSpec{{Type: TypeA, Kind: "strong"}, {Type: TypeB, Kind: "strong"}, {Type: TypeC, Kind: "strong"}, {Type: TypeC, Kind: "weak"}}
+				}
+				pos := r.Intn(len(a.Calls) + 1)
+				call := AttackCall{Op: "update-inputs", Inputs: nins}
+				a.Calls = append(a.Calls[:pos], append([]AttackCall{call}, a.Calls[pos:]...)...)
+			}
 		}
 		c.Attackers = append(c.Attackers, a)
 	}
@@ -303,8 +332,8 @@ func (c08) Run(t *testing.T, cs Case, trace bool) *Outcome {
 		for _, t := range c.RT.Cached {
 			cachedSet[t] = true
 		}
-		attack := func(a Attacker, rd controller.Reader, ur controller.UncachedReader, wrt controller.Writer) {
-			for _, call := range a.Calls {
+		attackCalls := func(a Attacker, calls []AttackCall, rd controller.Reader, ur controller.UncachedReader, wrt controller.Writer, ui func([]controller.Input) error) {
+			for _, call := range calls {
 				simrt.Yield("attack")
 				ptr := resource.NewMetadata("ns1", call.Type, call.ID, resource.VersionUndefined)
 				rec := &attackRec{Att: a.Spec.Name, Call: call, Invoke: len(w.Log), Task: simrt.Me()}
@@ -358,9 +387,39 @@ func (c08) Run(t *testing.T, cs Case, trace bool) *Outcome {
 					rec.Err = wrt.AddFinalizer(ctx, ptr, "att-"+a.Spec.Name)
 				case "remfin":
 					rec.Err = wrt.RemoveFinalizer(ctx, ptr, "f1")
+				case "update-inputs":
+					if ui == nil {
+						continue
+					}
+					rec.Err = ui(toInputs(call.Inputs))
 				}
 				rec.Ret = len(w.Log)
 				recs = append(recs, rec)
+			}
+		}
+		attack := func(a Attacker, rd controller.Reader, ur controller.UncachedReader, wrt controller.Writer, ui func([]controller.Input) error) {
+			if a.Workers <= 1 {
+				attackCalls(a, a.Calls, rd, ur, wrt, ui)
+				return
+			}
+			out.fault("attack:concurrent-callers-on-one-runtime(run)")
+			var dones []chan struct{}
+			for k := 0; k < a.Workers; k++ {
+				var mine []AttackCall
+				for j, call := range a.Calls {
+					if j%a.Workers == k {
+						mine = append(mine, call)
+					}
+				}
+				done := make(chan struct{})
+				dones = append(dones, done)
+				simrt.Go("attack-worker", func() {
+					defer close(done)
+					attackCalls(a, mine, rd, ur, wrt, nil)
+				})
+			}
+			for _, d := range dones {
+				simrt.ChanRecv("attack.join", d)
 			}
 		}
 		for _, a := range c.Attackers {
@@ -371,7 +430,7 @@ func (c08) Run(t *testing.T, cs Case, trace bool) *Outcome {
 				p.runHookRT = func(hctx context.Context, r controller.QRuntime) error {
 					if !done {
 						done = true
-						attack(a, r, r, r)
+						attack(a, r, r, r, nil)
 					}
 					simrt.ChanRecv("attacker.block", hctx.Done())
 					return nil
@@ -380,7 +439,7 @@ func (c08) Run(t *testing.T, cs Case, trace bool) *Outcome {
 				p.onReconcile = func(_ *Probe, r controller.Runtime) error {
 					if !done {
 						done = true
-						attack(a, r, r, r)
+						attack(a, r, r, r, r.UpdateInputs)
 					}
 					return nil
 				}
@@ -404,14 +463,48 @@ func (c08) Run(t *testing.T, cs Case, trace bool) *Outcome {
 			specOf[a.Spec.Name] = a.Spec
 		}
 		var deniedR, allowedR, deniedW, allowedW int
+		// owner of every resource right before each commit (the log is totally ordered: exact under concurrency)
+		prevOwner := make([]string, len(w.Log))
+		prevExists := make([]bool, len(w.Log))
+		{
+			cur := map[string]Snap{}
+			for i, cm := range w.Log {
+				k := cm.Type + "/" + cm.ID
+				if p, ok := cur[k]; ok {
+					prevOwner[i], prevExists[i] = p.Owner, true
+				}
+				if cm.Kind == "put" {
+					cur[k] = cm.Snap
+				} else {
+					delete(cur, k)
+				}
+			}
+		}
 		for _, rec := range recs {
 			spec := specOf[rec.Att]
 			call := rec.Call
 			var mine []Commit
+			var mineIdx []int
 			for i := rec.Invoke; i < rec.Ret && i < len(w.Log); i++ {
 				if w.Log[i].Task == rec.Task {
 					mine = append(mine, w.Log[i])
+					mineIdx = append(mineIdx, i)
 				}
+			}
+			if call.Op == "update-inputs" {
+				why := validKinds(false, call.Inputs)
+				if (rec.Err == nil) != (why == "") {
+					out.violate("C08/update-inputs", "update-inputs-acceptance", "controller %s: UpdateInputs(%v) returned %v, the declaration is %s", rec.Att, call.Inputs, rec.Err, map[bool]string{true: "valid", false: "invalid: " + why}[why == ""])
+					return
+				}
+				if rec.Err == nil {
+					spec.Inputs = append([]InputSpec{}, call.Inputs...)
+					specOf[rec.Att] = spec
+					out.probe("inputs-redeclared")
+				} else {
+					out.fault("attack:invalid-input-redeclaration")
+				}
+				continue
 			}
 			desc := fmt.Sprintf("controller %s (q=%v inputs=%v outputs=%v) call %s %s/%s owner-opt=%q -> %v; target before: exists=%v owner=%q", rec.Att, spec.Q, spec.Inputs, spec.Outputs, call.Op, call.Type, call.ID, call.Owner, rec.Err, rec.PreExists, rec.PreOwner)
 			fail := func(sig, format string, args ...any) {
@@ -481,19 +574,19 @@ func (c08) Run(t *testing.T, cs Case, trace bool) *Outcome {
 			if kind == "write" && rec.PreExists && ownerRel == "foreign" {
 				out.fault("attack:write-to-foreign-resource")
 			}
-			if kind == "write" && rec.PreExists && len(mine) > 0 {
+			if kind == "write" && call.Op != "addfin" && call.Op != "remfin" { // finalizers are not subject to ownership
 				named := rec.Att
 				switch call.Op {
 				case "teardown-owner", "destroy-owner":
 					named = call.Owner
-				case "modify-noowner":
+				case "modify-noowner", "create-noowner":
 					named = ""
-				case "addfin", "remfin":
-					named = rec.PreOwner // finalizers are not subject to ownership
 				}
-				if call.Op != "create" && call.Op != "create-noowner" && rec.PreOwner != named {
-					fail("ownership", "the controller changed a resource owned by %q while acting as %q", rec.PreOwner, named)
-					return
+				for _, i := range mineIdx {
+					if prevExists[i] && prevOwner[i] != named {
+						fail("ownership", "commit %d changed a resource that was owned by %q at that moment, while the controller acted as %q", i, prevOwner[i], named)
+						return
+					}
 				}
 			}
 			// resources it creates carry its name
